@@ -84,6 +84,15 @@ func init() {
 				}
 			}
 		}
+		// every semicircle value within 2000 of zero, of the poles and of the ends of the range: values
+		// that differ from a boundary only below the printed precision, or only just above it
+		for _, e := range []int64{0, 1 << 30, -(1 << 30), math.MaxInt32, math.MinInt32} {
+			for d := int64(-2000); d <= 2000; d++ {
+				if v := e + d; v <= math.MaxInt32 && v >= math.MinInt32 {
+					cs.Cases = append(cs.Cases, "ll lat "+strconv.FormatInt(v, 10), "ll lng "+strconv.FormatInt(v, 10))
+				}
+			}
+		}
 		for i := 0; i < n; i++ {
 			v := int64(int32(r.next()))
 			cs.Cases = append(cs.Cases, "ll lat "+strconv.FormatInt(v, 10), "ll lng "+strconv.FormatInt(v, 10))
@@ -175,6 +184,19 @@ func c17check(s int32, printed bool) (string, bool) {
 	return "", true
 }
 
+// values around which every semicircle is evaluated with its printed form: zero (printed precision),
+// the poles, the ends of the range, the system-time marker
+var c17Edges = []int64{0, 1 << 30, -(1 << 30), math.MaxInt32, math.MinInt32, 0x10000000}
+
+func nearEdge(x int64) bool {
+	for _, e := range c17Edges {
+		if d := x - e; d >= -4096 && d <= 4096 {
+			return true
+		}
+	}
+	return false
+}
+
 func absInt(x int64) int64 {
 	if x < 0 {
 		return -x
@@ -211,7 +233,7 @@ func postC17(res *RunResult) {
 			go func(w int) {
 				defer wg.Done()
 				for x := int64(math.MinInt32) + int64(w); x <= math.MaxInt32; x += int64(nw) {
-					eval(int32(x), x%61 == 0)
+					eval(int32(x), x%61 == 0 || nearEdge(x))
 				}
 			}(w)
 		}
@@ -222,10 +244,12 @@ func postC17(res *RunResult) {
 			eval(int32(x), true)
 			evals++
 		}
-		for _, e := range []int64{0, 1 << 30, -(1 << 30), math.MaxInt32 - 64, math.MinInt32 + 64, 0x10000000} {
-			for d := int64(-64); d <= 64; d++ {
-				eval(int32(e+d), true)
-				evals++
+		for _, e := range c17Edges {
+			for d := int64(-4096); d <= 4096; d++ {
+				if v := e + d; v >= math.MinInt32 && v <= math.MaxInt32 {
+					eval(int32(v), true)
+					evals++
+				}
 			}
 		}
 	}
